@@ -86,6 +86,80 @@ SEEDS = {
            "CBORTagCWT is wrong and collides with CBORTagCOSEMac"),
 }
 
+# round 2 (ids Cxx-3 = /tmp/seed2/Cxx/1, Cxx-4 = /tmp/seed2/Cxx/2): agents were told the obvious one-line slips at the main
+# mechanism had been tried and to look at helpers, rarely taken branches, call sequences, unusual representations
+SEEDS2 = {
+ "C01-3": ("C01", "key/aesccm/aes_ccm.go Decrypt: plaintext bound applied to the ciphertext (same effect as C01-1, other site)",
+           "AES-CCM-16-* payloads of 65520..65535 / 65528..65535 octets"),
+ "C01-4": ("C01", "key/interface_signing.go Signers/Verifiers.Lookup: an empty kid matches nothing",
+           "COSE_Sign with a signer key that has no kid: the produced message has no verifier"),
+ "C02-3": ("C02", "key/aesmac/aes_mac.go create(): 512-byte chunks, NewCBCEncrypter re-created inside the loop (chain restarts)",
+           "AES-CBC-MAC over more than 512 octets: only the last chunk is authenticated"),
+ "C02-4": ("C02", "cose/sign1.go, mac0.go, mac.go: Verify reuses the stored to-be-signed bytes unless nil or other external data",
+           "decode + verify message 1, decode message 2 (same signature, other payload) into the same object, verify"),
+ "C03-3": ("C03", "key/aesccm/ccm.go tag(): fixed AAD offset 14 (same as C03-2)", "AES-CCM, external data >= ~64 KiB, change confined to the protected bytes"),
+ "C03-4": ("C03", "cose/encrypt0.go, encrypt.go UnmarshalCBOR: an empty protected bucket is rewritten to h''",
+           "a message encrypted with protected h'' whose bucket is replaced by h'a0' / h'b800' / null still decrypts"),
+ "C04-3": ("C04", "hand-written structure encoder; 2-byte length head for n < 0xffff instead of <= 0xffff",
+           "a payload / external data / protected bucket of exactly 65535 octets"),
+ "C04-4": ("C04", "cose/sign1.go Verify rebuilds the Sig_structure only when nil or external data differs",
+           "decode A, Verify, decode B into the same object, Verify with equal external data"),
+ "C05-3": ("C05", "key/cosemap.go toInt: unsigned values converted to int64 before the range check",
+           "a protected alg of 2^64-7 (uint64) with an ES256 key, 2^64-8 with EdDSA"),
+ "C05-4": ("C05", "cose/header.go Headers.Has becomes Get(p) != nil",
+           "protected {1: null}: the alg / key comparison is skipped in all six kinds"),
+ "C06-3": ("C06", "key/random.go buffered reader with short reads (same as C06-1)", "long histories of library-chosen nonces"),
+ "C06-4": ("C06", "cose/encrypt0.go xorIV aliases a full-length Base IV (same as C06-2)", "two Partial-IV operations on one key object"),
+ "C07-3": ("C07", "cose/encrypt0.go xorIV loops over the Base IV instead of the nonce",
+           "a key whose Base IV is longer than the nonce plus a message with a Partial IV: index out of range"),
+ "C07-4": ("C07", "key/ecdsa/ecdsa.go ToCompressedKey uses elliptic.MarshalCompressed on unchecked coordinates",
+           "a public EC2 key with off-curve (x, y) byte strings: panic in the conversion"),
+ "C08-3": ("C08", "cose/header.go HeadersFromBytes fast path: first byte 0xa0 returns an empty map without decoding",
+           "a protected bucket of >= 2 octets starting with a0 (a000, a0a10126, a0ff …) is accepted"),
+ "C08-4": ("C08", "cose/mac.go MacMessage.Compute encodes the typed payload with cbor.Marshal (default options)",
+           "COSE_Mac with a payload that is a plain Go map of >= 2 entries: unsorted, non-deterministic encoding"),
+ "C09-3": ("C09", "key/cosemap.go MarshalCBOR duplicate guard keyed by fmt.Sprint(label)",
+           "a map holding an integer label and the text label that prints like it (4 and \"4\"): cannot be (re-)encoded"),
+ "C09-4": ("C09", "cose/recipient.go MarshalCBOR: nil Unprotected defaulted only on the flat path",
+           "a recipient with a nested recipient and nil Unprotected: encodes null, re-encodes a0"),
+ "C10-3": ("C10", "key/ecdsa/ecdsa.go caches d*G in a package map keyed by the scalar octets only",
+           "the same scalar octets used as d on two curves in one process"),
+ "C10-4": ("C10", "key/ecdsa/ecdsa.go compressed x bound compared in bits (len(x)*8 > bits)",
+           "P-521 compressed public keys whose x needs all 521 bits are refused"),
+ "C11-3": ("C11", "key/aesmac/aes_mac.go create(): 1024-byte buffer, pad bytes not cleared (as C11-1, other size)",
+           "messages longer than 1024 octets, not a multiple of 16"),
+ "C11-4": ("C11", "key/hmac/hmac.go caches the keyed hash; freshness test compares the key slice with itself",
+           "one MACer, the key octets overwritten in place between two calls: the old key stays in use"),
+ "C12-3": ("C12", "aesccm: CCM built once per Encryptor + a sticky flags field set when AAD is present",
+           "one Encryptor: a call with additional data, then a call without"),
+ "C12-4": ("C12", "key/aesccm/ccm.go cbcData bulk path: guard >= 1024, loop > 1024",
+           "a plaintext of exactly 1024 octets or additional data of exactly 1038 octets"),
+ "C13-3": ("C13", "key/hkdf/hkdf_aes.go keeps the block counter in append(info, 1) (the caller's backing array)",
+           "an info slice with spare capacity shared by two readers, or written behind its end between reads"),
+ "C13-4": ("C13", "HKDF512 early limit with sha256.Size (same as C13-1)", "HKDF512 lengths 8161..16320"),
+ "C14-3": ("C14", "ECDHer caches remote keys by kid (same as C14-2)", "two agreements on one ECDHer under one kid"),
+ "C14-4": ("C14", "key/ecdh/ecdh.go ToPublicKey left-pads public coordinates to the curve size",
+           "an X25519 remote key with a 1..31-octet x is padded and accepted instead of refused"),
+ "C15-3": ("C15", "key/ecdsa/ecdsa.go KeyToPrivate checks embedded coordinates only when both are byte strings",
+           "a private key {d, x: foreign, y: bool}: accepted by NewSigner"),
+ "C15-4": ("C15", "key/ecdh/ecdh.go ToCompressedKey reads the sign bit from the y octets only",
+           "re-compressing an already compressed key with odd y yields the sign bit false (the point -P)"),
+ "C16-3": ("C16", "key/key.go Ops(): type switch on int / uint64 members instead of ToInt",
+           "key_ops given as []any of int64: Ops() is nil, key unrestricted"),
+ "C16-4": ("C16", "HMAC MACVerify through the gated MACCreate (same as C16-1)", "HMAC key with key_ops [10]"),
+ "C17-3": ("C17", "CoseMap.UnmarshalCBOR reuses a non-nil destination (same as C17-1)", "decode into a used variable / KeySet"),
+ "C17-4": ("C17", "key/key.go Key.Alg() ignores the GetInt error: unreadable alg treated as absent",
+           "an EC2 / OKP key whose alg is out of int32 range or text: inferred from the curve, Signer() succeeds"),
+ "C18-3": ("C18", "cwt/validator.go keeps the caller's *ValidatorOpts instead of a copy",
+           "the options object changed after NewValidator (skew beyond the cap, other expectations)"),
+ "C18-4": ("C18", "CoseMap.Has becomes Get(k) != nil (same as C18-2)", "a time claim present with a null value"),
+ "C19-3": ("C19", "Key.Ops() writes back (same as C19-1)", "concurrent first uses of a decoded key"),
+ "C19-4": ("C19", "aesccm: CCM built once per Encryptor, MAC accumulator moved into the ccm struct",
+           "a shared AES-CCM Encryptor used concurrently"),
+ "C20-3": ("C20", "EAT claims as base + iota across the hole at 261 (same as C20-1)", "five EAT claim constants"),
+ "C20-4": ("C20", "CBORTagCWT = 0x61 (same as C20-2)", "CBORTagCWT"),
+}
+
 
 def main():
     log = open(sys.argv[1]).read() if len(sys.argv) > 1 else ""
@@ -94,7 +168,7 @@ def main():
     for line in log.split("\n"):
         m = re.match(r"=== (C\d\d)/(\d) ::", line)
         if m:
-            cur = f"{m.group(1)}-{m.group(2)}"
+            cur = f"{m.group(1)}-{int(m.group(2)) + (2 if os.environ.get('SEED_ROUND', '1') != '1' else 0)}"
             results.setdefault(cur, {})
             continue
         m = re.match(r"(C\d\d) exit=(\d+) (.*)", line)
@@ -102,9 +176,12 @@ def main():
             verdict = "caught" if m.group(2) != "0" and ("VIOLATION" in line or "KNOWN" in line) else "missed"
             results[cur][m.group(1)] = {"exit": int(m.group(2)), "verdict": verdict, "line": m.group(3)[:200]}
     root = "/verif/seeded"
-    for sid, (prop, what, needs) in sorted(SEEDS.items()):
+    rnd = os.environ.get("SEED_ROUND", "1")
+    table, base, wt, off = (SEEDS, "/tmp/seed", "/tmp/wt", 0) if rnd == "1" else (SEEDS2, "/tmp/seed2", "/tmp/wt2", 2)
+    for sid, (prop, what, needs) in sorted(table.items()):
         c, i = sid.split("-")
-        src = f"/tmp/seed/{c}/{i}"
+        i = str(int(i) - off)
+        src = f"{base}/{c}/{i}"
         if not os.path.exists(os.path.join(src, "patch.diff")):
             continue
         dst = os.path.join(root, sid)
@@ -123,14 +200,14 @@ def main():
         meta = {
             "id": sid, "property": prop, "change": what, "needs_to_manifest": needs,
             "confirmed": {
-                "how": f"bin/seedverify {c} {i}: patch applied in the scratch worktree /tmp/wt/{c} (git worktree of /repo), "
+                "how": f"bin/seedverify {c} {i}: patch applied in the scratch worktree {wt}/{c} (git worktree of /repo), "
                        "`go build ./... && go test -vet=off -count=1 ./...` (existing suite), then the demonstration "
                        "(`go test` / `go run .` in the demo module, which `replace`s the library by that worktree); patch reverted, demonstration again",
                 "suite_with_patch": "ok", "demo_with_patch": "fail", "demo_without_patch": "pass",
             },
             "checks_run": results.get(sid, {}),
             "apply": "git -C /repo apply <this dir>/patch.diff  (undo: git -C /repo checkout -- .)  or bin/seedtest <this dir>/patch.diff <Cxx>…",
-            "note": "the demonstration's go.mod replaces github.com/ldclabs/cose by /tmp/wt/" + c + "; point it at any checkout of /repo to re-run it",
+            "note": "the demonstration's go.mod replaces github.com/ldclabs/cose by " + wt + "/" + c + "; point it at any checkout of /repo to re-run it",
         }
         json.dump(meta, open(os.path.join(dst, "meta.json"), "w"), indent=1)
     print("seeded:", len(os.listdir(root)))
